@@ -292,7 +292,7 @@ async fn run() {
 }
 
 fn main() {
-    vtrace::quiet_panics();
+    if std::env::var("VERIF_LOUD").is_err() { vtrace::quiet_panics(); }
     let rt = tokio::runtime::Builder::new_current_thread().enable_all().build().expect("runtime");
     rt.block_on(run());
 }
